@@ -84,6 +84,8 @@ inductive Op where
   | listen (sc : List Act)            -- start a coroutine listener: `co_await emitter`
   | listen0 (sc : List Act)           -- the same on a default-constructed (never connected) emitter
   | connect (n : Nat)                 -- `signal::connect(fn)`, fn answers `true` n times, then `false`
+  | connectL (n : Nat)                -- `connect(fn)` with `fn` an *lvalue* callable which the caller destroys (or reuses) as soon as
+                                      -- `connect` has returned: the connection owns a copy (`std::decay_t<Fn> _fn`), same step as `connect`
   | connect0 (n : Nat)                -- `connect(fn)` on a moved-from `signal` object (no state): `initial_reg` finds nothing to lock
   | assign (l : Nat) (b : Bool)       -- `emitter::operator=` on the emitter of listener `l` while `l` is busy elsewhere: it now
                                       -- denotes the shared state (`true`: copy of a connected emitter) or nothing (`false`)
@@ -232,6 +234,7 @@ def step (s : State) (op : Op) : State × Res :=
   | Op.listen sc => stepListen s sc
   | Op.listen0 sc => stepListen0 s sc
   | Op.connect n => stepConnect s n
+  | Op.connectL n => stepConnect s n
   | Op.connect0 n => stepConnect0 s n
   | Op.assign l b => stepAssign s l b
   | Op.emit r v => stepEmit s r v
@@ -241,6 +244,29 @@ def step (s : State) (op : Op) : State × Res :=
   | Op.dropHandle => stepDrop s
 
 def run (s : State) (ops : List Op) : State := ops.foldl (fun s op => (step s op).1) s
+
+/-! ### The unrepaired `signal::connect` (pinned commit, before `/repo` commit d8a7c3e)
+
+`connect(Fn &&fn)` stored the callable in a member declared `Fn _fn`.  For an lvalue argument `Fn` is deduced as a reference
+type: the heap-allocated awaiter only referred to the caller's object.  `connect` returns nothing the caller could use to learn
+when the connection ends, so the caller's object goes away sooner or later — in `Op.connectL` right after `connect` returned. -/
+
+/-- `connect(lvalue)` as the pinned commit had it (before `/repo` commit d8a7c3e "fix: signal::connect kept a reference to an
+lvalue callback instead of owning it"): the awaiter is subscribed like any callback, but the only instance of the callable is
+the caller's, and its destruction — the release of the callback, `Out.free` — has happened while the awaiter is still waiting
+in the chain.  Whatever a later collector call does with it is a call on a destroyed object; the model lets the walk go on as
+for a live callback (only what is needed to exhibit the consequence is modelled). -/
+def stepConnectLAsIs (s : State) (n : Nat) : State × Res :=
+  if s.handles = 0 then (s, Res.bad)
+  else ({ (stepConnect s n).1 with got := upd (stepConnect s n).1.got s.next [Out.free] }, Res.id s.next)
+
+/-- the step function before `/repo` commit d8a7c3e: `connect` of an lvalue callable keeps a reference; everything else as `step` -/
+def stepAsIs (s : State) (op : Op) : State × Res :=
+  match op with
+  | Op.connectL n => stepConnectLAsIs s n
+  | _ => step s op
+
+def runAsIs (s : State) (ops : List Op) : State := ops.foldl (fun s op => (stepAsIs s op).1) s
 
 /-- The documented contract (signal.h:86-93, 131-133, 156-160): the suspend point returned by a collector call is
 flushed — discarded in a normal thread or `co_await`ed in a coroutine — before the next collector call (and before
